@@ -11,6 +11,7 @@ import random
 import sys
 import time
 import traceback
+import zlib
 
 import z3
 
@@ -220,7 +221,7 @@ def _unit_worker(args):
     need_conc = unit.concrete is not None
     if need_conc:
         try:
-            rng = random.Random(seed * 7919 + hash(uname) % 1000)
+            rng = random.Random(seed * 7919 + zlib.crc32(uname.encode()) % 1000)
             n = 25 if tier == "quick" else 300
             tb0 = time.time()
             out = unit.concrete(rng, n)
